@@ -310,12 +310,13 @@ class C05(PropertyCheck):
                     if specs2 and any(sc.used_of(x) for x in specs2):
                         derived = (specs2, chained(specs2, N, method, perm, shuffle, 0, sch, hist, store, oid, as_circuit, edits))
             else:
-                gates = [gate_obj(s) for s in specs]
+                form = "npint" if rng.random() < 0.12 else "list"
+                gates = [gate_obj(s) for s in specs] if form == "list" else [sc.make_gate(s, form) for s in specs]
                 log = sc.ShuffleLog(rng) if (shuffle or repeat) else None
                 kw = {"random_shuffle": bool(shuffle)}
                 if repeat:
                     kw["repeat_num"] = repeat
-                obj = sc.make_circuit(N, specs) if rng.random() < 0.15 else gates
+                obj = sc.make_circuit(N, specs) if (form == "list" and rng.random() < 0.15) else gates
                 st, idx = sc.impl_schedule(obj, method, perm, log, cons=cons, **kw)
                 shuf = log.log if log else None
                 cyc = None
@@ -326,7 +327,7 @@ class C05(PropertyCheck):
                     # the argument combination return_cycles_list=True with repeat_num > 0, on the same shuffles
                     cyc = sc.impl_schedule(obj, method, perm, sc.ShuffleLog(replay=shuf), cons=cons,
                                            return_cycles_list=True, **kw)
-                r = (st, idx, cyc, shuf, None)
+                r = (st, idx, cyc, shuf, None if form == "list" else form)
             for sp, rr, rep, edited in ((specs, r, repeat, False),) + (((derived[0], derived[1], 0, True),) if derived else ()):
                 cases.append((sp, N, method, perm, shuffle, rep, edited, cons))
                 impl.append(rr)
@@ -343,6 +344,10 @@ class C05(PropertyCheck):
                    "repeat": repeat}
             if cons is not None:
                 inp["constraint_functions"] = cons
+            form = "list"
+            if isinstance(hist, str):            # container form of targets / controls of a non-chained case
+                form, hist = hist, None
+                inp["form"] = form
             if hist is not None:
                 inp["calls_before_on_this_scheduler"] = [
                     [[g[0], g[1], g[2]] for g in c["gates"]] + [c["cycles"], c["repeat"], c["obj"], c["edits"]]
@@ -360,6 +365,8 @@ class C05(PropertyCheck):
                 w = {"history": hist, "method": method, "perm": perm, "scope": "covered"}
             if cons is not None:
                 w["cons"] = cons
+            if form != "list":
+                w["form"] = form
             mm = used_mismatch(specs)
             if mm:
                 res.disagree(inp, mm[0], mm[1], "used_qubits of an instruction", w)
@@ -377,6 +384,35 @@ class C05(PropertyCheck):
                 res.disagree(inp, m["idx"], list(idx), "gate_cycle_indices", w)
             elif shuf is not None and m["used"] != len(shuf):
                 res.disagree(inp, m["used"], len(shuf), "number of shuffle calls", w)
+
+    def _cross_object(self, ctx, res, n):
+        """several Scheduler objects in one process: scheduler 0 is used, a public attribute of it is edited in place
+        (constraint_functions.clear() / .append() / .pop(), method, allow_permutation), then a NEW scheduler is constructed and
+        used, then possibly scheduler 0 again.  Each call must equal the stateless model for the settings the scheduler has."""
+        rng = ctx.rng
+        P3 = sc.placements(3, sc.FEW_NAMES)
+        cases = []
+        for _ in range(n):
+            def call():
+                specs = specs_from([rng.choice(P3) for _ in range(rng.randint(2, 6))])
+                return {"kind": "gate", "N": 3, "gates": specs, "shuf": None, "repeat": 0, "cycles": True, "as_circuit": rng.random() < 0.3}
+            steps = sc.cross_object_steps(rng, call)
+            form = rng.choice(["list", "list", "npint"])
+            for k, (c, eff, st, r) in enumerate(sc.run_steps(steps, form)):
+                cases.append((steps, form, k, c, eff, st, r))
+        lines = [sc.model_line(eff["method"], eff["perm"], [fields_of(x) + (sc.DEN,) for x in c["gates"]], None, eff["cons"])
+                 for (_, _, _, c, eff, _, _) in cases]
+        for (steps, form, k, c, eff, st, r), o in zip(cases, ctx.driver("drv_sched").run(lines)):
+            inp = {"steps": [x if x["op"] != "call" else {"op": "call", "id": x["id"], "gates": [[g[0], g[1], g[2]] for g in x["call"]["gates"]]}
+                             for x in steps], "call": k, "form": form}
+            res.case(inp, nontrivial=True, tags=["cross-object", f"form={form}"])
+            w = {"steps": steps, "scope": "covered", "form": form}
+            m = sc.parse_model(o)
+            if m["status"] != "ok" or st != "ok":
+                if m["status"] != st:
+                    res.disagree(inp, m["status"], st, "verdict (cross-object history)", w)
+            elif m["cycles"] != r:
+                res.disagree(inp, m["cycles"], r, f"cycles list of call {k + 1} (scheduler settings {eff})", w)
 
     def _compare_repeat(self, ctx, res, inp, w, specs, method, perm, repeat, st, idx, shuf, cyc_call=None):
         """repeat_num: the model is run once per repetition on the shuffles that repetition consumed;
@@ -579,6 +615,11 @@ class C05(PropertyCheck):
             shapes = shapes[:105] + rng.sample(shapes[105:], 600)
         batch = [(specs_from(seq), 2, m, p, k % 5 == 0, 0) for k, seq in enumerate(shapes) for m, p in settings]
         self._flush(ctx, res, batch, "interleaved")
+        self._cross_object(ctx, res, 1500 if ctx.thorough else 250)
+        res.notes.append("cross-object histories: an earlier Scheduler's public attributes are edited in place, then a freshly "
+                         "constructed Scheduler must behave like one in a fresh process (tag cross-object); container forms of "
+                         "targets / controls: lists and numpy integers in the correspondence (tag form=), one-element numpy "
+                         "arrays in the oracles")
         # triples on which the rule is not transitive (H commutes with A and B, A and B are not related), all orders ---------
         batch = [(specs_from(seq), 2, m, p, k % 4 == 0, 0) for k, seq in enumerate(sc.nontransitive_shapes()) for m, p in settings]
         self._flush(ctx, res, batch, "nontransitive")
@@ -658,7 +699,8 @@ class C05(PropertyCheck):
         n = len(w["history"])
         store = {}
         for k, call in enumerate(w["history"]):
-            st, r = sc.run_call(sch, call, method, perm, gate_of=gate_obj, store=store)
+            st, r = sc.run_call(sch, call, method, perm, store=store,
+                                gate_of=gate_obj if w.get("form", "list") == "list" else (lambda x: sc.make_gate(x, w["form"])))
             if call["kind"] != "gate":
                 continue
             specs = call["gates"]
@@ -677,7 +719,26 @@ class C05(PropertyCheck):
                               f"{[[g[0], g[1], g[2]] for g in specs]}): " + d)
         return False, f"{n} calls on one Scheduler object: every result is a partition into exclusive cycles with the same unitary"
 
+    def _replay_steps(self, ctx, w):
+        """several Scheduler objects in one process, public attributes of earlier ones edited in place; every gate-mode
+        result is judged by the property for the settings its scheduler has at the time of the call"""
+        results = sc.run_steps(w["steps"], w.get("form", "list"))
+        n = len(results)
+        for k, (call, eff, st, r) in enumerate(results):
+            if call["kind"] != "gate" or not call["gates"] or all(not sc.used_of(x) for x in call["gates"]):
+                continue
+            if st != "ok":
+                return True, f"call {k + 1} of {n} (scheduler settings {eff}): schedule raised: {st}"
+            f, d = self._judge(call["gates"], call["N"], eff["perm"], sc.cycles_of(call, r), w.get("scope"), eff["cons"],
+                               ordered=bool(call.get("cycles")))
+            if f:
+                return True, (f"call {k + 1} of {n}, on a Scheduler with settings {eff} created after / next to other Scheduler "
+                              f"objects of the process (circuit {[[g[0], g[1], g[2]] for g in call['gates']]}): " + d)
+        return False, f"{n} calls on several Scheduler objects: every result is a partition into exclusive cycles with the same unitary"
+
     def oracle_replay(self, ctx, w):
+        if "steps" in w:
+            return self._replay_steps(ctx, w)
         if "history" in w:
             return self._replay_history(ctx, w)
         specs, N, method, perm = w["gates"], w["N"], w["method"], w["perm"]
@@ -687,7 +748,8 @@ class C05(PropertyCheck):
             return (st != "ok" or r != []), f"empty input -> {st} {r}"
         if all(not sc.used_of(s) for s in specs):
             return False, "no instruction uses a qubit (the code raises on max() of an empty set; not a gate circuit)"
-        qc = sc.make_circuit(N, specs)
+        form = w.get("form", "list")
+        qc = sc.make_circuit(N, specs) if form == "list" else [sc.make_gate(x, form) for x in specs]
         if repeat:
             log = sc.ShuffleLog(replay=shuf) if shuf is not None else sc.ShuffleLog(random.Random(w.get("shuffle_seed", 0)))
             if w.get("repeat_cycles"):
@@ -803,6 +865,39 @@ class C05(PropertyCheck):
                     yield {"N": 3, "gates": specs_from(seq), "method": m, "perm": True, "shuf": None, "shuffle_seed": 1,
                            "repeat": 2, "repeat_cycles": rc, "scope": "covered"}
 
+    def _cross_object_witnesses(self, rng=None, count=0):
+        """histories over several Scheduler objects: the minimal ones first (use / edit scheduler 0 in place, then a fresh
+        default scheduler), then random ones"""
+        def call(seq, cycles=True):
+            return {"kind": "gate", "N": 3, "gates": specs_from(seq), "shuf": None, "repeat": 0, "cycles": cycles,
+                    "as_circuit": False}
+        if rng is None:
+            for seq in self.CTOR_CIRCUITS:
+                for what in ("clear", "pop", "append_a", "method:ALAP", "perm:0"):
+                    for m in ("ASAP", "ALAP"):
+                        yield {"steps": [{"op": "new", "id": 0, "method": m, "perm": True, "cons": None},
+                                         {"op": "call", "id": 0, "call": call(seq)},
+                                         {"op": "mutate", "id": 0, "what": what},
+                                         {"op": "new", "id": 1, "method": m, "perm": True, "cons": None},
+                                         {"op": "call", "id": 1, "call": call(seq)},
+                                         {"op": "call", "id": 0, "call": call(seq)}], "scope": "covered"}
+        else:
+            for _ in range(count):
+                yield {"steps": sc.cross_object_steps(rng, lambda: call([rng.choice(self.HIST_POOL) for _ in range(rng.randint(2, 4))],
+                                                                          cycles=rng.random() < 0.7)),
+                       "scope": "covered", "form": rng.choice(["list", "list", "npint", "array1"])}
+
+    def _form_witnesses(self):
+        """container forms of targets / controls (numpy integers, one-element numpy arrays) on small circuits"""
+        seqs = self.CTOR_CIRCUITS + [[("CNOT", [1], [0]), ("X", [0], [])], [("X", [0], []), ("CNOT", [1], [0])],
+                                     [("CNOT", [1], [0]), ("SNOT", [0], []), ("CNOT", [2], [0])],
+                                     [("CZ", [1], [0]), ("RX", [0], []), ("RZ", [1], [])]]
+        for seq in seqs:
+            for form in sc.FORMS[1:]:
+                for m in ("ASAP", "ALAP"):
+                    yield {"N": 3, "gates": specs_from(seq), "method": m, "perm": True, "shuf": None, "repeat": 0,
+                           "scope": "covered", "form": form, "also_indices": True}
+
     def _nontransitive(self):
         """all orders of the triples on which the documented rule is not transitive (+ priority-changing tails)"""
         for seq in sc.nontransitive_shapes():
@@ -813,6 +908,9 @@ class C05(PropertyCheck):
                    "repeat": 0, "scope": "covered"}
 
     def _systematic(self):
+        yield from self._shared_parameter_witnesses()
+        yield from self._form_witnesses()
+        yield from self._cross_object_witnesses()
         yield from self._nontransitive()
         yield from self._constructor_witnesses()
         yield from self._interleaved()
@@ -840,6 +938,8 @@ class C05(PropertyCheck):
             w["cons"] = rng.choice(sc.CONS_LISTS)
         if w["repeat"] and rng.random() < 0.5:
             w["repeat_cycles"] = True
+        if rng.random() < 0.3:
+            w["form"] = rng.choice(sc.FORMS[1:])
         return w
 
     def oracle_search(self, ctx, budget_s):
@@ -884,7 +984,31 @@ class C05(PropertyCheck):
                 yield {"N": N, "gates": specs_from(seq), "method": m, "perm": True, "shuf": None, "repeat": 0,
                        "scope": "covered"}
 
+    def _shared_parameter_witnesses(self):
+        """two gates of one multi-parameter family (R, MS, QASMU) on the same qubit(s) whose parameter lists AGREE in some
+        components and differ in another (the generic streams give every position different values in every component)"""
+        import math
+        vals = [0.0, math.pi / 2, 0.7, math.pi, 2 * math.pi + 0.7]
+        for name, qs in (("R", [0]), ("MS", [0, 1]), ("QASMU", [0])):
+            npar = sc.LIBRARY[name][2]
+            for keep in range(npar):
+                for a in vals[:4]:
+                    for b, c in ((0.0, math.pi / 2), (0.7, 2.3), (math.pi / 2, math.pi)):
+                        p1 = [b] * npar
+                        p2 = [c] * npar
+                        p1[keep] = p2[keep] = a
+                        for extra in ([], [("X", [qs[0]], [])]):
+                            gates = [[name, list(qs), [], p1], [name, list(qs), [], p2]] + \
+                                    [[g[0], g[1], g[2], None] for g in extra]
+                            for m in ("ASAP", "ALAP"):
+                                yield {"N": 2, "gates": gates, "method": m, "perm": True, "shuf": None, "repeat": 0,
+                                       "scope": "covered"}
+
     def oracle_always(self, ctx):
+        for w in self._shared_parameter_witnesses():
+            f, d = self.oracle_replay(ctx, w)
+            if f:
+                yield w, d
         # constructor arguments: every kind of `method`, user constraint function lists
         ctor = list(self._constructor_witnesses())
         for w in ctor[:len(sc.METHODS) * len(sc.CONS_LISTS)] + ctx.rng.sample(ctor, 400):
@@ -896,6 +1020,12 @@ class C05(PropertyCheck):
             if f:
                 yield w, d
         for w in self._nontransitive():
+            f, d = self.oracle_replay(ctx, w)
+            if f:
+                yield w, d
+        # container forms of targets / controls; several Scheduler objects with in-place edits of public attributes
+        for w in itertools.chain(self._form_witnesses(), self._cross_object_witnesses(),
+                                 self._cross_object_witnesses(ctx.rng, 200)):
             f, d = self.oracle_replay(ctx, w)
             if f:
                 yield w, d
